@@ -114,6 +114,12 @@ fn catalogue(k: usize, dead_session: Option<u32>) -> Vec<Fault> {
         Fault { kind: "string-escape-unknown", content: "<assign location=\"x\" expr=\"'\\q\\x41\\0'\"/><assign location=\"x\" expr=\"1\"/>".into(), expect: Expect::AtMost, aborts_block: None },
         Fault { kind: "string-unterminated", content: "<assign location=\"x\" expr=\"'abc\"/><assign location=\"x\" expr=\"1\"/>".into(), expect: Expect::AtMost, aborts_block: None },
         Fault { kind: "string-non-ascii", content: "<assign location=\"x\" expr=\"'ä€😀'\"/><assign location=\"x\" expr=\"1\"/>".into(), expect: Expect::AtMost, aborts_block: None },
+        Fault { kind: "abs-of-min-literal", content: "<assign location=\"x\" expr=\"abs(-9223372036854775808)\"/><assign location=\"x\" expr=\"1\"/>".into(), expect: Expect::AtMost, aborts_block: None },
+        Fault { kind: "abs-of-min-computed", content: "<assign location=\"x\" expr=\"abs(0 - 9223372036854775807 - 1)\"/><assign location=\"x\" expr=\"1\"/>".into(), expect: Expect::AtMost, aborts_block: None },
+        Fault { kind: "cond-min-literal", content: "<if cond=\"-9223372036854775808\"><assign location=\"x\" expr=\"1\"/></if>".into(), expect: Expect::AtMost, aborts_block: None },
+        Fault { kind: "cond-min-computed", content: "<if cond=\"0 - 9223372036854775807 - 1\"><assign location=\"x\" expr=\"1\"/></if>".into(), expect: Expect::AtMost, aborts_block: None },
+        Fault { kind: "negate-min", content: "<assign location=\"x\" expr=\"-(0 - 9223372036854775807 - 1)\"/><assign location=\"x\" expr=\"1\"/>".into(), expect: Expect::AtMost, aborts_block: None },
+        Fault { kind: "cond-odd-values", content: "<if cond=\"arr\"><assign location=\"x\" expr=\"1\"/><elseif cond=\"node\"/><assign location=\"x\" expr=\"1\"/><elseif cond=\"''\"/><assign location=\"x\" expr=\"1\"/><elseif cond=\"0.0 / 0.0\"/><assign location=\"x\" expr=\"1\"/></if>".into(), expect: Expect::AtMost, aborts_block: None },
         Fault { kind: "raise-odd-name", content: "<raise event=\"error.platform.almostcancel\"/>".into(), expect: Expect::Nothing, aborts_block: Some(false) },
     ];
     if let Some(d) = dead_session {
@@ -131,6 +137,9 @@ fn invoke_catalogue() -> Vec<(&'static str, String)> {
         ("invoke-unsupported-type", "<invoke id=\"k\" type=\"http://example.org/nosuchinvoke\"><content><scxml xmlns=\"http://www.w3.org/2005/07/scxml\" datamodel=\"null\" initial=\"k1\"><final id=\"k1\"/></scxml></content></invoke>".into()),
         ("invoke-bad-srcexpr", "<invoke id=\"k\" srcexpr=\"nosuchvar\"/>".into()),
         ("invoke-bad-namelist", "<invoke id=\"k\" namelist=\"nosuchvar\"><content><scxml xmlns=\"http://www.w3.org/2005/07/scxml\" datamodel=\"null\" initial=\"k1\"><final id=\"k1\"/></scxml></content></invoke>".into()),
+        ("invoke-srcexpr-and-param-one-variable", "<invoke id=\"k\" srcexpr=\"tv\"><param name=\"p\" expr=\"tv\"/><param name=\"q\" expr=\"tv + tv\"/></invoke>".into()),
+        ("invoke-srcexpr-and-namelist-one-variable", "<invoke id=\"k\" srcexpr=\"tv\" namelist=\"tv\"/>".into()),
+        ("invoke-typeexpr-and-param-one-variable", "<invoke id=\"k\" typeexpr=\"ev\"><param name=\"p\" expr=\"ev\"/><content><scxml xmlns=\"http://www.w3.org/2005/07/scxml\" datamodel=\"null\" initial=\"k1\"><final id=\"k1\"/></scxml></content></invoke>".into()),
         ("invoke-unknown-datamodel", "<invoke id=\"k\"><content><scxml xmlns=\"http://www.w3.org/2005/07/scxml\" datamodel=\"nosuchdatamodel\" initial=\"k1\"><final id=\"k1\"/></scxml></content></invoke>".into()),
     ]
 }
